@@ -38,23 +38,34 @@ RULE = ("cases = interception plans (0-8 entries per family built by truncating 
         "A case is non-trivial when the plan has overlapping entries, a port range, an owner restriction or a name "
         "server; distinct = distinct (method, canonical plan)")
 MANIFEST = dict(
-    level_text=("Machine-checked Lean 4 theorems over a model of subnet_weight, Python's stable sort and the four rule "
-                "generators. Proved for every list of well-formed entries and every packet (induction over sorted "
-                "lists, no enumeration): the first match of the descending sort / last match of the ascending sort is an "
-                "include iff the most specific matching entry (narrowest port range, longest prefix, exclusion wins "
-                "ties) is an include, and key order = that precedence. Full verdict theorems (DNS, TCP, owner, other "
-                "family, local/forwarded) for nat and for an nft table; for pf the last-match filter step (partial); "
-                "for tproxy the rule-level match lemmas (partial). Tied to the code on every run by a token-by-token "
-                "differential run of the real setup_firewall of nat/nft/tproxy/pf(FreeBSD, OpenBSD, Darwin) and by an "
-                "oracle that parses the real argv / pf text and decides every cell of the arrangement."),
+    level_text=("Machine-checked Lean 4 theorems (core Lean, no sorry/axiom/native_decide) over a model of subnet_weight, "
+                "Python's stable sort and the four rule generators, for EVERY subnet list, port range, name-server list, "
+                "family and packet (induction over the sorted list / rule list, no enumeration). "
+                "Ordering: key order = the property's precedence (narrowest port range, longest prefix, exclusion wins "
+                "ties); first match of the descending sort / last match of the ascending sort is an include iff the most "
+                "specific matching entry is. Full verdict theorems (DNS to listed name servers, TCP by most specific "
+                "entry, other UDP only when forwarded, other family untouched, local vs forwarded): C03_nat (incl. "
+                "user/group marking), C03_nft (per inet table, nfproto guard), C03_pf (FreeBSD/Darwin and OpenBSD anchors: "
+                "last-match pass-out + rdr/divert-to on lo0), C03_tproxy_v4 (whole pipeline: mangle OUTPUT mark chain with "
+                "non-terminating MARK, policy routing on the mark, PREROUTING tproxy chain with -m socket/divert chain "
+                "and interleaved tcp/udp rules), C03_tproxy_chains_agree, C03_tproxy_local_destination. For IPv6 tproxy "
+                "the same theorem is C03_tproxy_partial with the known-finding class excluded by hypothesis "
+                "(Mask32Safe) and the negation witness C03_tproxy_dns_mask32_v6_false. Tied to the code on every run "
+                "by regenerated parameters (sort direction, weight shape, DNS port per method), a token-by-token "
+                "differential run of the real setup_firewall of nat/nft/tproxy/pf(FreeBSD, OpenBSD, Darwin), the real "
+                "firewall.main line protocol, stale-session cases on a stateful rule state, and an oracle that parses the "
+                "real argv / pf text and decides every cell of the arrangement."),
     level_note=("Trusted: Lean kernel; the packet-walk environment model (netfilter first match, RETURN, non-terminating "
-                "MARK, REDIRECT/TPROXY; pf last-match filter + rdr, unvalidated: no pf in the sandbox); policy routing for "
-                "tproxy as documented; address text -> number by inet_pton. tproxy chain walk and pf rdr step are "
-                "covered by correspondence + oracle only. nft/tproxy/pf ignore user/group (the client refuses "
-                "--user/--group for them, C15). Known finding: tproxy renders the DNS rules with /32 for IPv6 name "
-                "servers too (C03_tproxy_dns_mask32_v6_false); recorded, not repaired, because the repository's own "
-                "test pins /32; the model follows the code as it is."),
-    technique="Lean 4 proof (sorted first/last-match lemma, key order = spec order) + differential correspondence + per-cell oracle on real rules",
+                "MARK, REDIRECT/TPROXY/ACCEPT, jumps; pf last-match filter + first-match rdr, from the manual pages, "
+                "unvalidated: no pf in the sandbox); tproxy's documented policy routing (fwmark -> lo) and 'a new flow has "
+                "no local socket'; address text -> number by inet_pton. Theorems are per setup_firewall call (one "
+                "family); the composition of the two per-family calls made by firewall.main, the effect of commands on "
+                "a non-empty pre-existing rule state (stale sessions), pf's own-address/loopback-source cases and "
+                "nat/nft with a local destination are correspondence + oracle only. nft/tproxy/pf ignore user/group "
+                "(proved: C03_owner_ignored_by_nft_tproxy_pf; the client refuses the options for them, C15). Known "
+                "finding: tproxy renders DNS rules with /32 for IPv6 name servers too; recorded, not repaired, because "
+                "the repository's own test pins /32; the model follows the code as it is."),
+    technique="Lean 4 proof (sorted first/last-match lemma, key order = spec order, chain-walk induction) + differential correspondence + per-cell oracle on real rules",
 )
 DRIVER_TARGETS = ['SshuttleModel.Code.FwRules', 'SshuttleModel.Env.PacketWalk', 'SshuttleModel.Spec.MostSpecific']
 ASSUMPTIONS = [
